@@ -220,7 +220,7 @@ class HarnessGen:
             et = t.deref() if nm not in buf_et else self.lw.ctype(buf_et[nm])
             cnt = bufs[nm]
             L.append('  __CPROVER_assume((%s) <= %d);' % (cnt, self.K))
-            L.append('  %s = malloc(((__CPROVER_size_t)(%s)) * sizeof(%s));' % (t.decl(nm, keep_const=False), cnt, et.cast()))
+            L.append('  %s = QX_ALLOC(((__CPROVER_size_t)(%s)) * sizeof(%s));' % (t.decl(nm, keep_const=False), cnt, et.cast()))
             for i in range(self.K):
                 inm = self.new_input(et, '%s[%d]' % (nm, i))
                 L.append('  QX_INPUT(%s, %s); if (%d < (%s)) ((%s *)%s)[%d] = %s;' % (et.cast(), inm, i, cnt, et.cast(), nm, i, inm))
@@ -296,6 +296,8 @@ class HarnessGen:
             L.append('#ifdef QX_NATIVE')
             if not isvoid and not ret.is_record() and not ret.derivs:
                 L.append('  if (qx_ret != qx_real_ret) { QX_MISMATCH("return value"); }')
+            for rf in (spec.get('ret_fields') or []) if (not isvoid and ret.is_record()) else []:
+                L.append('  if (qx_ret.%s != qx_real_ret.%s) { QX_MISMATCH("returned %s"); }' % (rf, rf, rf))
             for nm, t in objs:
                 acc = []
                 leaves(self.lw, 'o_' + nm, t.deref(), acc)
@@ -351,6 +353,7 @@ static unsigned long long qx_pick(void) { unsigned long long r = qx_rand(); swit
 #define __CPROVER_w_ok(p, n) 1
 #define __CPROVER_r_ok(p, n) 1
 #define __CPROVER_same_object(a, b) 1
+#define QX_ALLOC(n) malloc(n)
 #define QX_INPUT(T, n) n = (T)qx_pick()
 #define QX_FIXED(T, n, v) n = (T)(v)
 #define QX_CANARY()
@@ -372,6 +375,8 @@ static int qx_failed = 0;
 #define __CPROVER_w_ok(p, n) 1
 #define __CPROVER_r_ok(p, n) 1
 #define __CPROVER_same_object(a, b) 1
+/* an empty buffer is a pointer one past a 1-byte block, so that the sanitizer flags any access to it */
+#define QX_ALLOC(n) ((n) ? malloc(n) : (void *)((char *)malloc(1) + 1))
 #define QX_INPUT(T, n) n = (T)QX_VAL_##n
 #define QX_FIXED(T, n, v) n = (T)QX_VAL_##n
 #define QX_CANARY()
@@ -381,6 +386,7 @@ static int qx_failed = 0;
 '''
 
 CBMC_PRE = r'''
+#define QX_ALLOC(n) malloc(n)
 #define QX_INPUT(T, n) { T qx_nd; n = qx_nd; }
 #define QX_FIXED(T, n, v) n = (T)(v)
 #define QX_DONE()
@@ -467,7 +473,7 @@ def cxx_type(t, lw_types):
     return t
 
 
-def wrapper_cpp(lw, driver_path, wrap_fns, stub_fns, ast=None):
+def wrapper_cpp(lw, driver_path, wrap_fns, stub_fns, ast=None, real_fns=()):
     """C++ TU: includes the instantiation driver and exports each real function under its lowered C name;
     cut functions (QV::*) are defined to forward to the C stubs."""
     L = ['#include "%s"' % driver_path, '#include <new>', '#include <cstdlib>', 'using namespace Qentem;', '']
@@ -487,7 +493,10 @@ def wrapper_cpp(lw, driver_path, wrap_fns, stub_fns, ast=None):
                 raise LowerError('array parameter in wrapper')
         return s + ' ' + nm
 
-    for fn in wrap_fns:
+    for fn in list(wrap_fns) + [('=', f) for f in real_fns]:
+        export = 'qx_real_'
+        if isinstance(fn, tuple):
+            export, fn = '', fn[1]      # a cut callee exported under its lowered C name: the lowered caller links the real code
         info = lw.fn_info[fn]
         ps = info['params']
         sig = ', '.join(cxx_param(t, nm) for nm, t, r in ps)
@@ -502,7 +511,7 @@ def wrapper_cpp(lw, driver_path, wrap_fns, stub_fns, ast=None):
             body = 'return (%s)(%s);' % (rets, call)
         else:
             body = 'return %s;' % call
-        L.append('extern "C" %s qx_real_%s(%s) { %s }' % (rets, fn, sig or 'void', body))
+        L.append('extern "C" %s %s%s(%s) { %s }' % (rets, export, fn, sig or 'void', body))
     for fn in stub_fns:
         info = lw.fn_info[fn]
         ps = info['params']
